@@ -72,6 +72,8 @@ struct Spec
     size_t          nfine{0};
     const uint32_t* susp{nullptr}; // ascending ordinals: yield at the n-th execution, without the container's lock,
     size_t          nsusp{0};      // of a basic block that calibration only ever saw executed under that lock
+    uint32_t        relock_stall{0}; // a client that takes the container's lock a second time within one call is
+                                     // parked for this many decisions first (0: ordinary lock-request point)
     uint32_t        step_budget{20000};
     const void*     obj_lo{nullptr}; // address range of the container under test:
     const void*     obj_hi{nullptr}; // mutexes inside it are schedule points
@@ -105,6 +107,7 @@ void           calib_end();
 uint32_t       calib_locked_blocks();
 uint32_t       susp_seen();       // executions of such blocks by a client that did not hold the container's lock
 uint32_t       susp_fired();      // preemptions taken there
+uint32_t       relock_fired();    // calls that re-acquired the container's lock and were stalled there
 uint32_t       fine_fired();      // basic-block preemptions taken
 uint32_t       fine_seen();       // basic blocks executed by clients inside calls while holding no lock
 uint64_t       trace_hash();
